@@ -552,8 +552,11 @@ class ControlStream:
                         i, j = int(m.group(1)), int(m.group(2))
                         if 1 <= i <= n and 0 <= j <= n and i != j:
                             rates[(i, j)] = val
-                        elif j == n + 1 and False:
-                            pass
+                        elif 1 <= i <= n and j == n + 1:
+                            rates[(i, 0)] = val  # the output compartment may be named by its number n+1
+                        elif i != j:
+                            # a variable with the name of a rate constant between compartments that $MODEL does not define
+                            raise Undefined(f"rate constant {name} names a compartment that does not exist ({n} compartments)")
                 return _linear(n, rates)
             if st["kind"] == "mm":
                 for nm in ("VM", "KM"):
